@@ -620,6 +620,18 @@ struct Slot {
     since: Option<Instant>,
     child: Option<Arc<Mutex<Child>>>,
     timed_out: bool,
+    /// processor time of the worker process sampled by the watchdog for the case that started at `.0`
+    cpu_mark: Option<(Instant, f64)>,
+}
+
+/// user + system time of a process in seconds (Linux /proc, 10 ms ticks); None where unavailable
+fn process_cpu_seconds(pid: u32) -> Option<f64> {
+    let s = std::fs::read_to_string(format!("/proc/{pid}/stat")).ok()?;
+    let rest = &s[s.rfind(')')? + 1..];
+    let f: Vec<&str> = rest.split_whitespace().collect();
+    let utime: u64 = f.get(11)?.parse().ok()?;
+    let stime: u64 = f.get(12)?.parse().ok()?;
+    Some((utime + stime) as f64 / 100.0)
 }
 
 fn request_line(cfg: &ExploreCfg, want_desc: bool, spec: &str) -> String {
@@ -676,7 +688,7 @@ pub fn explore(cfg: &ExploreCfg) -> ExploreResult {
         Condvar::new(),
     ));
     let slots: Arc<Vec<Mutex<Slot>>> =
-        Arc::new((0..cfg.workers).map(|_| Mutex::new(Slot { since: None, child: None, timed_out: false })).collect());
+        Arc::new((0..cfg.workers).map(|_| Mutex::new(Slot { since: None, child: None, timed_out: false, cpu_mark: None })).collect());
     let done_flag = Arc::new(Mutex::new(false));
 
     // watchdog
@@ -692,11 +704,31 @@ pub fn explore(cfg: &ExploreCfg) -> ExploreResult {
             for s in slots.iter() {
                 let mut s = s.lock().unwrap();
                 if let (Some(t), Some(ch)) = (s.since, s.child.clone()) {
-                    if t.elapsed() > to {
+                    // The limit is meant for the work of the case, not for the machine: on a crowded
+                    // machine a case may wait for the processor most of the time. A worker is killed
+                    // when the limit has passed on the wall clock AND the worker itself has used that
+                    // much processor time since the case started - or, as a guard against workers
+                    // that sleep forever, after eight times the limit whatever it used.
+                    let pid = ch.lock().map(|c| c.id()).unwrap_or(0);
+                    let now_cpu = process_cpu_seconds(pid);
+                    match s.cpu_mark {
+                        Some((t0, _)) if t0 == t => {}
+                        _ => s.cpu_mark = now_cpu.map(|c| (t, c)),
+                    }
+                    let used = match (s.cpu_mark, now_cpu) {
+                        (Some((_, c0)), Some(c1)) => Some(c1 - c0),
+                        _ => None,
+                    };
+                    let wall = t.elapsed();
+                    let over = wall > to && (used.map_or(true, |u| u > to.as_secs_f64()) || wall > to * 8);
+                    if over {
                         let _ = ch.lock().map(|mut c| c.kill());
                         s.timed_out = true;
                         s.since = None;
+                        s.cpu_mark = None;
                     }
+                } else {
+                    s.cpu_mark = None;
                 }
             }
         })
